@@ -8,6 +8,7 @@ import Golib.Proof.C19Rec
 import Golib.Proof.C19Hid
 import Golib.Proof.C19Trace
 import Golib.Proof.C19Endings
+import Golib.Model.C19Log
 import Golib.Gen.FactsC19
 
 namespace Golib.C19
@@ -19,7 +20,9 @@ outer deferred function (recover → handler; cleanups under an inner deferred r
 registered before `fn()`; `NewLimiter` = `limit < 1 → 3`, channel capacity `limit`;
 untimed `Wait` = `l.w.Wait()`; `Wait(d)` = a helper goroutine blocked in `l.w.Wait()` that
 signals a private buffered channel, and a `select` on that channel and `time.After(d)` —
-no operation on `l.c`, no `Add`/`Done` (the machine's `waitTimed` step is the identity). -/
+no operation on `l.c`, no `Add`/`Done` (the machine's `waitTimed` step is the identity);
+`stack` = `make([]uintptr, deep)`, `runtime.Callers(skip, callers)`, `callers[:n]`, then the
+frame loop; `LogPanic` = a closure that calls `stack(&buf, 5, deep)` and then `l.Error`. -/
 theorem c19_facts :
     Gen.C19.extractorOK = true ∧
     Gen.C19.limiterFields = ["c:chanstruct{}", "w:sync.WaitGroup", "panicHandler:func(any)"] ∧
@@ -28,13 +31,20 @@ theorem c19_facts :
     Gen.C19.addBody = ["send l.c", "l.w.Add(1)"] ∧
     Gen.C19.doneBody = ["l.w.Done()", "recv l.c"] ∧
     Gen.C19.recoverBody =
-      ["defer{if(p:=recover();p!=nil){if(panicFn!=nil){panicFn(p)}else{var buf; buf.Grow(…); buf.WriteString(…); stack(…); fmt.Println(…)}}; if(len(cleanups)==0){return}; var index; defer{if(p:=recover();p!=nil){s:=fmt.Sprintf(…); if(panicFn!=nil){panicFn(s)}else{fmt.Println(…)}}}; range(i,cleanup:cleanups){index=i; cleanup()}}",
+      ["defer{if(p:=recover();p!=nil){if(panicFn!=nil){panicFn(p)}else{var buf; buf.Grow(…); buf.WriteString(…); stack(&buf,4,6); fmt.Println(…)}}; if(len(cleanups)==0){return}; var index; defer{if(p:=recover();p!=nil){s:=fmt.Sprintf(…); if(panicFn!=nil){panicFn(s)}else{fmt.Println(…)}}}; range(i,cleanup:cleanups){index=i; cleanup()}}",
        "fn()"] ∧
     Gen.C19.setHandlerBody = ["l.panicHandler=fn", "return l"] ∧
     Gen.C19.waitUntimedTail = "l.w.Wait()" ∧
     Gen.C19.waitTimedBody =
-      ["if(len(waitTime)>0){quit:=make(chanstruct{},1); go func(chchan<-struct{}){l.w.Wait()ch<-struct{}{}}(…); select{case recv quit:{} case recv time.After(waitTime[0]):{}}; return}"] :=
-  ⟨rfl, rfl, rfl, rfl, rfl, rfl, rfl, rfl, rfl, rfl⟩
+      ["if(len(waitTime)>0){quit:=make(chanstruct{},1); go func(chchan<-struct{}){l.w.Wait()ch<-struct{}{}}(…); select{case recv quit:{} case recv time.After(waitTime[0]):{}}; return}"] ∧
+    -- the library's own handler `LogPanic` and the buffer handling of its helper `stack`
+    -- (`Golib.Model.C19Log`: `stackBuf`, `logPanicCall`; theorem `c19_logpanic_total`)
+    Gen.C19.stackHead =
+      ["callers:=make([]uintptr,deep)", "n:=runtime.Callers(skip,callers)",
+       "frames:=runtime.CallersFrames(callers[:n])"] ∧
+    Gen.C19.logPanicBody =
+      ["return func{var buf; buf.Grow(…); buf.WriteString(…); stack(&buf,5,deep); l.Error(…)}"] :=
+  ⟨rfl, rfl, rfl, rfl, rfl, rfl, rfl, rfl, rfl, rfl, rfl, rfl⟩
 
 /-- `NewLimiter(limit)`: a limit below 1 falls back to 3. -/
 theorem c19_default_limit (limit : Int) :
@@ -160,6 +170,36 @@ theorem c19_endings (limit : Int) (s : St) (h : Reachable limit s) (i : Nat) (t 
   · intro s₂ t₂ h₂ ht₂ h5 hne
     refine (Inv.of_reachable h₂).progress ht₂ hne (fun e => ?_)
     rw [e] at h5; simp [Pc.rank] at h5
+
+/-- `c19_logpanic_total` (what is claimed when the HANDLER itself could panic): the handler
+call is a step of the machine that returns.  A user-supplied handler that panics is the
+caller's fault and outside the property; the library's OWN handler `goz.LogPanic(l, deep)`
+must not: for EVERY depth `deep ≥ 0` (0, 1, …, 31, 32, 33, …, any size) and however many
+frames the runtime has, the buffer handling of `stack` does not panic — it hands
+`min avail deep ≤ deep` pcs to `CallersFrames` — so `LogPanic` returns whenever the user's
+logger does.  RECORDED OBSERVATION (not claimed): a NEGATIVE `deep` is a misuse
+(`make([]uintptr, deep)` panics: the handler dies inside `Recover`'s deferred function before
+the cleanups and the process terminates) — `stackBuf` says so. -/
+theorem c19_logpanic_total (deep : Int) (avail : Nat) :
+    (0 ≤ deep → stackBuf deep avail = some (min avail deep.toNat) ∧
+        logPanicCall deep avail false = some (min avail deep.toNat) ∧
+        (min avail deep.toNat : Int) ≤ deep) ∧
+    (deep < 0 → stackBuf deep avail = none ∧ ∀ b, logPanicCall deep avail b = none) := by
+  refine ⟨fun h => ?_, fun h => ?_⟩
+  · have hb : stackBuf deep avail = some (min avail deep.toNat) := by
+      have : ¬ deep < 0 := by omega
+      simp [stackBuf, this, Nat.min_le_right]
+    refine ⟨hb, by simp [logPanicCall, hb], ?_⟩
+    have : (min avail deep.toNat : Nat) ≤ deep.toNat := Nat.min_le_right _ _
+    omega
+  · have hb : stackBuf deep avail = none := by simp [stackBuf, h]
+    exact ⟨hb, fun b => by simp [logPanicCall, hb]⟩
+
+/-- Non-vacuity: depths at and around the size of any fixed buffer (31, 32, 33, 1000) with 40
+frames available: the handler returns; depth −1: it panics. -/
+example : logPanicCall 31 40 false = some 31 ∧ logPanicCall 32 40 false = some 32 ∧
+    logPanicCall 33 40 false = some 33 ∧ logPanicCall 1000 40 false = some 40 ∧
+    logPanicCall 0 40 false = some 0 ∧ logPanicCall (-1) 40 false = none := by decide
 
 /-- `c19_endings_sequence`: any finite sequence of endings of any kinds, one function after the
 other (submit, run, end, deferred cleanup), on a Limiter with a free slot: the schedule is
